@@ -77,7 +77,7 @@ def _lattice_time(rng, cur, step=10 * MS):
 def _c08_profile(rng, asyncish):
     return prof(n_states=(3, 8), max_depth=rng.choice((2, 2, 3)), p_after=0.55, events=3, p_trans=0.5,
                 p_history=0.08, p_parallel=0.10, p_always=0.05, p_raise=0.05,
-                p_slow_act=0.10, p_async_act=(0.10 if asyncish else 0.0),
+                p_slow_act=0.10, p_async_act=(0.10 if asyncish else 0.0), p_zero_delay=0.08,
                 w_target={"none": 1, "self_re": 2, "self": 1, "sibling": 6, "any": 4})
 
 
